@@ -1,4 +1,5 @@
 import CstModel.Props.C10
+import CstModel.Props.GenIntern
 open Cst.C10
 #print axioms issued_resolves
 #print axioms key_eq_iff
@@ -10,3 +11,6 @@ open Cst.C10
 #print axioms key_roundtrip
 #print axioms builtin_capacity_fits
 #print axioms usize_reject
+#print axioms Cst.Gen.i_get_or_intern
+#print axioms Cst.Gen.i_resolve
+#print axioms Cst.Gen.i_fwd
